@@ -27,6 +27,7 @@ class TNum:
 class TObj:
     cls: str
     p: int = 0          # pointer depth
+    ref: bool = False   # edm::Ref-like smart pointer (p == 1): has operator-> and isNonnull()
 
     def __str__(self):
         return self.cls + "*" * self.p
@@ -94,7 +95,6 @@ class MethodSpec:
 class ClassSpec:
     name: str
     methods: Dict[str, MethodSpec] = field(default_factory=dict)
-    reflike: bool = False            # edm::Ref-like: has operator-> and isNonnull()
     header: Optional[str] = None     # header that declares it (for the include check)
 
 
@@ -146,30 +146,30 @@ BUILTIN_METHODS = {
     ],
     "cms_aod": [
         ("reco::Track", MethodSpec("hitPattern", TObj("reco::HitPattern", 0))),
-        ("reco::Muon", MethodSpec("globalTrack", TObj("reco::Track", 1), nullable=True)),
+        ("reco::Muon", MethodSpec("globalTrack", TObj("reco::Track", 1, True), nullable=True)),
         ("reco::Muon", MethodSpec("hitPattern", TObj("reco::HitPattern", 0))),
         ("reco::Muon", MethodSpec("isPFIsolationValid", TNum("bool"))),
         ("reco::Muon", MethodSpec("isPFMuon", TNum("bool"))),
         ("reco::Muon", MethodSpec("pfIsolationR04", TObj("reco::MuonPFIsolation", 0))),
-        ("reco::GsfElectron", MethodSpec("gsfTrack", TObj("reco::GsfTrack", 1), nullable=True)),
+        ("reco::GsfElectron", MethodSpec("gsfTrack", TObj("reco::GsfTrack", 1, True), nullable=True)),
         ("reco::GsfElectron", MethodSpec("isEB", TNum("bool"))),
         ("reco::GsfElectron", MethodSpec("isEE", TNum("bool"))),
         ("reco::GsfElectron", MethodSpec("passingPflowPreselection", TNum("bool"))),
-        ("reco::GsfElectron", MethodSpec("superCluster", TObj("reco::SuperClusterRef", 1), nullable=True)),
+        ("reco::GsfElectron", MethodSpec("superCluster", TObj("reco::SuperClusterRef", 1, True), nullable=True)),
         ("reco::GsfElectron", MethodSpec("pfIsolationVariables", TObj("reco::GsfElectron::PflowIsolationVariables", 0))),
         ("reco::GsfTrack", MethodSpec("trackerExpectedHitsInner", TObj("reco::HitPattern", 0))),
     ],
     "cms_miniaod": [
         ("reco::TrackRef", MethodSpec("hitPattern", TObj("reco::HitPattern", 0))),
-        ("pat::Muon", MethodSpec("globalTrack", TObj("reco::TrackRef", 1), nullable=True)),
+        ("pat::Muon", MethodSpec("globalTrack", TObj("reco::TrackRef", 1, True), nullable=True)),
         ("pat::Muon", MethodSpec("isPFIsolationValid", TNum("bool"))),
         ("pat::Muon", MethodSpec("isPFMuon", TNum("bool"))),
         ("pat::Muon", MethodSpec("pfIsolationR04", TObj("reco::MuonPFIsolation", 0))),
-        ("pat::Electron", MethodSpec("gsfTrack", TObj("reco::GsfTrackRef", 1), nullable=True)),
+        ("pat::Electron", MethodSpec("gsfTrack", TObj("reco::GsfTrackRef", 1, True), nullable=True)),
         ("pat::Electron", MethodSpec("isEB", TNum("bool"))),
         ("pat::Electron", MethodSpec("isEE", TNum("bool"))),
         ("pat::Electron", MethodSpec("passingPflowPreselection", TNum("bool"))),
-        ("pat::Electron", MethodSpec("superCluster", TObj("reco::SuperClusterRef", 1), nullable=True)),
+        ("pat::Electron", MethodSpec("superCluster", TObj("reco::SuperClusterRef", 1, True), nullable=True)),
         ("pat::Electron", MethodSpec("pfIsolationVariables", TObj("reco::GsfElectron::PflowIsolationVariables", 0))),
         ("reco::GsfTrack", MethodSpec("trackerExpectedHitsInner", TObj("reco::HitPattern", 0))),
     ],
@@ -313,13 +313,14 @@ class Num:
 
 class ObjV:
     "Object (or pointer to object): class, pointer depth, object id, null predicate."
-    __slots__ = ("cls", "p", "oid", "null")
+    __slots__ = ("cls", "p", "oid", "null", "ref")
 
-    def __init__(self, cls, p, oid, null=None):
+    def __init__(self, cls, p, oid, null=None, ref=False):
         self.cls = cls
         self.p = p
         self.oid = oid
         self.null = null if null is not None else z3.BoolVal(False)
+        self.ref = ref
 
     def __repr__(self):
         return f"Obj({self.cls}{'*'*self.p},{self.oid})"
@@ -419,12 +420,17 @@ class Ctx:
     def axioms(self):
         out = list(self.cons)
         seen = set()
+        eps = z3.RealVal(1) / z3.RealVal(1 << 23)
         for r in self.rf_terms:
             k = r.get_id()
             if k in seen:
                 continue
             seen.add(k)
-            out.append(RF(r) == r)
+            x = r.arg(0)
+            ax = z3.If(x >= 0, x, -x)
+            out.append(RF(r) == r)                                   # idempotent
+            out.append(z3.And(r >= x - eps * ax, r <= x + eps * ax))  # relative error of binary32 rounding
+            out.append(z3.Implies(z3.And(z3.IsInt(4 * x), ax <= (1 << 20)), r == x))  # small dyadics are exact
         return out
 
 
@@ -467,6 +473,7 @@ class Event:
         self.tag = tag
         self.store = {}        # (ctype, bank) -> dict(present, n, base)
         self.ufs = {}
+        self.apps = {}         # uf key -> {term id: (arg terms, result term)}
         self.cons = []
         self.strings = {}
         self.float_vals = []   # terms that are float-typed inputs (rf fixpoints)
@@ -496,7 +503,15 @@ class Event:
         key = (name, tuple(str(d) for d in dom), str(rng))
         if key not in self.ufs:
             self.ufs[key] = z3.Function(re.sub(r"[^\w]", "_", name) + f"__{len(self.ufs)}", *dom, rng)
-        return self.ufs[key]
+            self.apps[key] = {}
+        f = self.ufs[key]
+        apps = self.apps[key]
+
+        def app(*args):
+            t = f(*args)
+            apps[t.get_id()] = (args, t)
+            return t
+        return app
 
     def sort_of(self, t):
         if isinstance(t, TNum):
@@ -532,10 +547,10 @@ class Event:
             f = self._uf(name, dom, z3.IntSort())
             o = f(oid, *argts)
             null = z3.BoolVal(False)
-            if ms.nullable and (ret.p >= 1 or self.dm.cls(ret.cls).reflike):
+            if ms.nullable and ret.p >= 1:
                 fn = self._uf(name + "?null", dom, z3.BoolSort())
                 null = fn(oid, *argts)
-            return ObjV(ret.cls, ret.p, o, null)
+            return ObjV(ret.cls, ret.p, o, null, ret.ref)
         if isinstance(ret, TColl):
             fl = self._uf(name + "#len", dom, z3.IntSort())
             ln = fl(oid, *argts)
@@ -558,7 +573,7 @@ class Event:
             return Num(et.kind, t)
         if isinstance(et, TObj):
             f = self._uf(f"{name}#el", dom + [z3.IntSort()], z3.IntSort())
-            return ObjV(et.cls, et.p, f(*args, z3.IntVal(k)))
+            return ObjV(et.cls, et.p, f(*args, z3.IntVal(k)), None, et.ref)
         if isinstance(et, TColl):
             fl = self._uf(f"{name}#el#len", dom + [z3.IntSort()], z3.IntSort())
             ln = fl(*args, z3.IntVal(k))
